@@ -227,10 +227,10 @@ for _i in range(len(STATEMENTS)):
 
 
 @cond('C20.triple', quick=None, thorough=1500,
-      bounds='three threads on one shared connection (statements 1, 2, 6), every schedule of the first 9 switch points (choice '
-             'among the parked threads)', symbolic='the schedule', params={f's{k}': int for k in range(9)})
+      bounds='three threads on one shared connection (statements 1, 2, 6), every schedule of the first 7 switch points (choice '
+             'among the parked threads)', symbolic='the schedule', params={f's{k}': int for k in range(7)})
 def triple(**kw):
-    schedule = [enum_int(kw[f's{k}'], 0, 2) for k in range(9)]
+    schedule = [enum_int(kw[f's{k}'], 0, 2) for k in range(7)]
     return native(_check, (1, 2, 6), schedule, True, False)
 
 
